@@ -16,7 +16,7 @@ import (
 // A probe installed as the first global middleware snapshots the context at
 // entry of every request.
 
-var kindNames = []string{"store", "errors", "abort", "status-write", "replace-resp", "replace-req", "set-handlers", "dynamic", "dynamic2", "notfound", "notallowed", "panic", "redispatch", "nested", "copy"}
+var kindNames = []string{"store", "errors", "abort", "status-write", "replace-resp", "replace-req", "set-handlers", "dynamic", "dynamic2", "notfound", "notallowed", "panic", "redispatch", "nested", "copy", "mutate-params", "dynamic3"}
 
 type kindReq struct {
 	method, path string
@@ -38,6 +38,9 @@ var kindReqs = map[string]kindReq{
 	"redispatch":   {"GET", "/redir"},
 	"nested":       {"GET", "/nested"},
 	"copy":         {"GET", "/copy"},
+	// a handler that edits its parameter map in place, and a plain request for the same URL
+	"mutate-params": {"POST", "/m/9"},
+	"dynamic3":      {"GET", "/m/9"},
 }
 
 type wrapW struct{ http.ResponseWriter }
@@ -133,6 +136,14 @@ func newKindRouter(cfg kindCfg) *kindRouter {
 		k.innerObs = fmt.Sprintf("%d:%s", rec.Code, rec.Body.String())
 		c.WriteString("outer-after-inner:" + k.innerObs + ":" + fmt.Sprint(c.SafeGet("outer")))
 	})
+	r.Add("/m/{id}", func(c *rux.Context) {
+		seen := c.Param("id") + "/" + c.Param("extra")
+		if c.Req.Method == "POST" {
+			c.Params["id"] = "evil"
+			c.Params["extra"] = "added"
+		}
+		c.WriteString("m:" + seen)
+	}, "GET", "POST")
 	r.GET("/copy", func(c *rux.Context) {
 		cp := c.Copy()
 		cp.Set("in-copy", 1)
